@@ -280,3 +280,243 @@ Proof.
   intros E1 E2; injection E1 as <-; injection E2 as <-;
   (eapply apply_overrides_le; [|exact A1|exact A2]); vm_compute; reflexivity.
 Qed.
+
+(* ================================================================== *)
+(* 2. processSignature                                                 *)
+(* ================================================================== *)
+
+(* case analysis on the first match/if scrutinee that is itself free of matches *)
+Ltac destr_head :=
+  match goal with
+  | |- context [match ?x with _ => _ end] =>
+      lazymatch x with
+      | context [match _ with _ => _ end] => fail
+      | _ => destruct x eqn:?
+      end
+  end.
+
+Ltac unbool := cbv beta iota delta [negb andb orb implb Bool.eqb is_none nonempty].
+
+Ltac crush_with fin :=
+  cbn; unbool; first [ solve [fin] | destr_head; crush_with fin ].
+
+Ltac fin0 := first [reflexivity | discriminate | congruence | tauto].
+
+Lemma discover_spec sc :
+  match discover sc with
+  | DErr e gets => (e = EInconclusive \/ e = EOther) /\ (s_nonstring_crit sc || plugin_unusable sc = true)
+  | DNoPlugin => plugin_demanded sc = false /\ s_nonstring_crit sc = false /\ usable_caps sc = None
+  | DPlugin n vc => usable_caps sc = Some vc /\ plugin_demanded sc = true
+                    /\ s_nonstring_crit sc = false /\ vc <> []
+                    /\ (match s_pm sc with PMPlugin _ _ caps => vc = verification_caps caps | _ => False end)
+  end.
+Proof.
+  destruct sc as [integ pa ma mv ot ns au idn ex ts rv p pr].
+  unfold discover, lookup_plugin, minver_error, usable_caps, plugin_unusable, plugin_demanded, attr_malformed.
+  cbn [s_plugin_attr s_minver_attr s_minver_valid s_nonstring_crit s_pm].
+  crush_with ltac:(repeat split; fin0).
+Qed.
+
+(* ---------- the native stage ---------- *)
+Definition nat_auth_failed (sc : scenario) (caps : list cap) : bool :=
+  negb (s_auth sc =? 0)%N || (negb (has_cap CapTI caps) && negb (s_identity_ok sc)).
+
+Definition native_rev (lvl : level) (caps : list cap) : bool :=
+  negb (action_eqb (l_rev lvl) Skip) && negb (has_cap CapRev caps).
+
+Definition nat_results (lvl : level) (sc : scenario) (caps : list cap) : list result :=
+  [mk_res TIntegrity Enforce false;
+   mk_res TAuth (l_auth lvl) (nat_auth_failed sc caps);
+   mk_res TExpiry (l_exp lvl) (s_expired sc);
+   mk_res TTimestamp (l_ts lvl) (negb (s_ts_ok sc))]
+  ++ (if native_rev lvl caps then [mk_res TRev (l_rev lvl) (negb (s_rev_ok sc))] else []).
+
+Definition nat_fail (lvl : level) (sc : scenario) (caps : list cap) : bool :=
+  enforced (l_auth lvl) (nat_auth_failed sc caps)
+  || enforced (l_exp lvl) (s_expired sc)
+  || enforced (l_ts lvl) (negb (s_ts_ok sc))
+  || (native_rev lvl caps && enforced (l_rev lvl) (negb (s_rev_ok sc))).
+
+(* shape of an observation that stops in the native stage *)
+Definition stop_shape (lvl : level) (caps : list cap) (e : err) (rs : list result) (c : bool) : bool :=
+  forallb (fun r => action_eqb (r_action r) (act_of lvl (r_type r))) rs
+  && is_prefix (map r_type rs) type_order
+  && match e with
+     | EResult t => existsb (fun r => vtype_eqb (r_type r) t && action_eqb (r_action r) Enforce && r_failed r) rs
+     | _ => false
+     end
+  && (negb (action_eqb (l_rev lvl) Skip)
+      || (negb c && negb (existsb (fun r => vtype_eqb (r_type r) TRev) rs)))
+  && (negb c || negb (has_cap CapRev caps)).
+
+(* finite enumeration by computation *)
+Definition all_bool (P : bool -> bool) : bool := P true && P false.
+Definition all_act (P : action -> bool) : bool := P Enforce && P Log && P Skip.
+Definition all_optb (P : option bool -> bool) : bool := P None && P (Some true) && P (Some false).
+
+Lemma all_bool_ok (P : bool -> bool) : all_bool P = true -> forall b, P b = true.
+Proof. unfold all_bool. rewrite andb_true_iff. intros [H1 H2] []; assumption. Qed.
+Lemma all_act_ok (P : action -> bool) : all_act P = true -> forall a, P a = true.
+Proof. unfold all_act. rewrite !andb_true_iff. intros [[H1 H2] H3] []; assumption. Qed.
+Lemma all_optb_ok (P : option bool -> bool) : all_optb P = true -> forall o, P o = true.
+Proof. unfold all_optb. rewrite !andb_true_iff. intros [[H1 H2] H3] [[]|]; assumption. Qed.
+
+Ltac enum_bool x := revert x; apply all_bool_ok.
+Ltac enum_act x := revert x; apply all_act_ok.
+Ltac enum_optb x := revert x; apply all_optb_ok.
+
+Lemma vtype_eqb_eq a b : vtype_eqb a b = true <-> a = b.
+Proof. destruct a, b; cbn; split; congruence. Qed.
+
+Lemma result_eqb_eq a b : result_eqb a b = true <-> a = b.
+Proof.
+  destruct a as [t1 a1 f1], b as [t2 a2 f2]. unfold result_eqb; cbn.
+  rewrite !andb_true_iff, vtype_eqb_eq, action_eqb_eq, Bool.eqb_true_iff.
+  split; [intros [[-> ->] ->]; reflexivity | intros E; inversion E; auto].
+Qed.
+
+Lemma err_eqb_eq a b : err_eqb a b = true <-> a = b.
+Proof.
+  destruct a as [|s| |], b as [|t| |]; cbn; try (split; congruence).
+  rewrite vtype_eqb_eq. split; [intros ->; reflexivity | intros E; inversion E; auto].
+Qed.
+
+Definition stage_eqb (x y : err * list result * bool) : bool :=
+  err_eqb (fst (fst x)) (fst (fst y)) && list_eqb result_eqb (snd (fst x)) (snd (fst y))
+  && Bool.eqb (snd x) (snd y).
+
+Lemma stage_eqb_eq x y : stage_eqb x y = true -> x = y.
+Proof.
+  destruct x as [[e1 r1] c1], y as [[e2 r2] c2]. unfold stage_eqb; cbn.
+  rewrite !andb_true_iff, err_eqb_eq, Bool.eqb_true_iff, (list_eqb_spec _ result_eqb_eq).
+  intros [[-> ->] ->]. reflexivity.
+Qed.
+
+Lemma native_cases_b lvl sc caps :
+  (if nat_fail lvl sc caps
+   then stop_shape lvl caps (fst (fst (native lvl sc caps))) (snd (fst (native lvl sc caps))) (snd (native lvl sc caps))
+   else stage_eqb (native lvl sc caps) (ENone, nat_results lvl sc caps, native_rev lvl caps)) = true.
+Proof.
+  destruct sc as [integ pa ma mv ot ns au idn ex ts rv p pr].
+  destruct lvl as [la lt le lr].
+  unfold nat_fail, native, stop_shape, nat_results, native_rev, nat_auth_failed, enforced, is_critical_failure.
+  cbn [s_auth s_identity_ok s_expired s_ts_ok s_rev_ok l_auth l_ts l_exp l_rev].
+  generalize (has_cap CapTI caps) (has_cap CapRev caps) (au =? 0)%N. intros hti hrev a0.
+  enum_bool rv. enum_bool hrev. enum_bool ts. enum_bool ex. enum_bool idn. enum_bool hti. enum_bool a0.
+  enum_act lr. enum_act lt. enum_act le. enum_act la.
+  vm_compute; reflexivity.
+Qed.
+
+Lemma native_stop lvl sc caps : nat_fail lvl sc caps = true ->
+  stop_shape lvl caps (fst (fst (native lvl sc caps))) (snd (fst (native lvl sc caps))) (snd (native lvl sc caps)) = true.
+Proof. intros H. pose proof (native_cases_b lvl sc caps) as X. now rewrite H in X. Qed.
+
+Lemma native_go lvl sc caps : nat_fail lvl sc caps = false ->
+  native lvl sc caps = (ENone, nat_results lvl sc caps, native_rev lvl caps).
+Proof. intros H. pose proof (native_cases_b lvl sc caps) as X. rewrite H in X. now apply stage_eqb_eq. Qed.
+
+(* ---------- well-formed capability lists: five shapes ---------- *)
+Lemma count_vcaps c caps : c <> CapOther -> count_cap c (verification_caps caps) = count_cap c caps.
+Proof.
+  intros NC. induction caps as [|x caps IH]; [reflexivity|].
+  destruct x; cbn [verification_caps filter count_cap]; fold (verification_caps caps);
+    try (rewrite IH; reflexivity).
+  destruct c; cbn; try congruence; exact IH.
+Qed.
+
+Lemma vcaps_no_other caps : Forall (fun c => c <> CapOther) (verification_caps caps).
+Proof.
+  induction caps as [|x caps IH]; [constructor|].
+  destruct x; cbn [verification_caps filter]; fold (verification_caps caps); try assumption;
+    constructor; try assumption; discriminate.
+Qed.
+
+Definition shapes : list (list cap) := [[]; [CapTI]; [CapRev]; [CapTI; CapRev]; [CapRev; CapTI]].
+
+Lemma five_shapes v : Forall (fun c => c <> CapOther) v ->
+  (count_cap CapTI v <= 1)%nat -> (count_cap CapRev v <= 1)%nat -> In v shapes.
+Proof.
+  intros F H1 H2. unfold shapes.
+  destruct v as [|a [|b [|c v]]].
+  - cbn; auto.
+  - inversion F as [|? ? Fa _]; subst. destruct a; try congruence; cbn; auto.
+  - inversion F as [|? ? Fa F1]; subst. inversion F1 as [|? ? Fb _]; subst.
+    destruct a, b; try congruence; cbn in *; try lia; auto 10.
+  - exfalso. inversion F as [|? ? Fa F1]; subst. inversion F1 as [|? ? Fb F2]; subst.
+    inversion F2 as [|? ? Fc _]; subst.
+    destruct a, b, c; try congruence; cbn in *; lia.
+Qed.
+
+Lemma wf_shapes sc : wf_sc sc = true ->
+  match s_pm sc with PMPlugin _ _ caps => In (verification_caps caps) shapes | _ => True end.
+Proof.
+  unfold wf_sc. destruct (s_pm sc) as [| | |v g caps]; auto.
+  rewrite andb_true_iff, !Nat.leb_le. intros [H1 H2].
+  apply five_shapes; [apply vcaps_no_other | |]; rewrite count_vcaps; (assumption || discriminate).
+Qed.
+
+(* ---------- attributes: processed = critical ones processed and the others processed ---------- *)
+Definition noncrit_processed (sc : scenario) (processed : list string) : bool :=
+  forallb (fun k => mem_str k processed) (map fst (filter (fun x => negb (snd x)) (s_other sc))).
+
+Lemma all_processed_split sc p : all_processed sc p = crit_processed sc p && noncrit_processed sc p.
+Proof.
+  unfold all_processed, crit_processed, noncrit_processed, other_keys, other_crit.
+  induction (s_other sc) as [|[k c] l IH]; [reflexivity|].
+  cbn [map filter fst snd forallb]. destruct c; cbn [negb map fst forallb]; rewrite IH;
+    destruct (mem_str k p); cbn; try reflexivity.
+  - destruct (forallb _ (map fst (filter snd l))); reflexivity.
+Qed.
+
+Lemma list_eqb_refl {A} (eqb : A -> A -> bool) : (forall x, eqb x x = true) -> forall l, list_eqb eqb l l = true.
+Proof. intros H l. induction l; cbn; [reflexivity|]. now rewrite H, IHl. Qed.
+
+Lemma str_list_eqb_refl l : list_eqb String.eqb l l = true.
+Proof. apply list_eqb_refl. apply String.eqb_refl. Qed.
+
+Ltac enum_all :=
+  repeat match goal with
+  | x : bool |- _ => revert x; apply all_bool_ok
+  | x : action |- _ => revert x; apply all_act_ok
+  | x : option bool |- _ => revert x; apply all_optb_ok
+  end;
+  vm_compute; reflexivity.
+
+Ltac core_unfold :=
+  unfold verify_core, process_signature, process_plugin_response, native, any_critical_attribute,
+    spec_impl, should_fail_impl, spec_shape, expected_results, enforced_failure, plugin_unusable,
+    plugin_exec_problem, nothing_processes, has_critical, noncrit_unprocessed,
+    authenticity_failed, identity_failed, revocation_failed, asked, caps_of, accepted.
+
+Lemma core_ok lvl sc : wf_sc sc = true -> spec_impl lvl sc (verify_core lvl sc) = true.
+Proof.
+  intros W.
+  pose proof (discover_spec sc) as DS. pose proof (wf_shapes sc W) as SH.
+  destruct lvl as [la lt le lr].
+  core_unfold.
+  destruct (s_integrity_ok sc) eqn:IO; cbn [negb].
+  2:{ clear. enum_all. }
+  destruct (discover sc) as [e gets | | n vc] eqn:D.
+  - (* discovery error *)
+    destruct DS as [NE PU]. unfold plugin_unusable in PU.
+    revert PU. generalize (s_nonstring_crit sc) (plugin_demanded sc && is_none (usable_caps sc)).
+    intros ns pu PU. clear - NE PU. destruct NE as [-> | ->]; destruct ns, pu; try discriminate PU; clear; enum_all.
+  - (* no plugin demanded *)
+    destruct DS as (PD & NS & UC). rewrite PD, NS, UC.
+    generalize (s_auth sc =? 0)%N (s_identity_ok sc) (s_expired sc) (s_ts_ok sc) (s_rev_ok sc).
+    intros a0 idn ex ts rv.
+    destruct (s_minver_attr sc); destruct (other_crit sc); clear; enum_all.
+  - (* plugin demanded and usable *)
+    destruct DS as (UC & PD & NS & NE & PM). rewrite PD, NS, UC.
+    destruct (s_pm sc) as [| | |v g caps]; try contradiction. subst vc.
+    generalize (s_auth sc =? 0)%N (s_identity_ok sc) (s_expired sc) (s_ts_ok sc) (s_rev_ok sc).
+    intros a0 idn ex ts rv.
+    unfold shapes in SH. cbn [In] in SH.
+    destruct SH as [E|[E|[E|[E|[E|[]]]]]]; rewrite <- E in *; [congruence| | | |].
+    all: destruct (s_presp sc) as [|processed ti rev].
+    all: rewrite ?all_processed_split; unfold crit_processed.
+    all: destruct (other_crit sc) as [|x l].
+    all: try generalize (forallb (fun k : string => mem_str k processed) (x :: l)).
+    all: try generalize (noncrit_processed sc processed).
+    all: intros; clear; enum_all.
+Qed.
